@@ -479,3 +479,7 @@ impl FeatureState for TransportState {
         })
     }
 }
+
+#[cfg(kani)]
+#[path = "/verif/kani/vrp-core/transport_proofs.rs"]
+mod verif_kani_proofs;
